@@ -33,6 +33,8 @@ structure Impl where
   blockIO : U8 → U8 → U8 → U8
   /-- opcode fetches counted in R for DDCB/FDCB forms: 2 (silicon) or 3 -/
   ddcbM1 : Nat
+  /-- does reading the supplied opcode of a mode-0 request count as an opcode fetch for R? -/
+  im0M1 : Bool
 
 -- ---------------------------------------------------------------------------
 -- operands
